@@ -88,7 +88,8 @@ def run_body(rec):
     from doctrans import emit, parse
 
     kind, body = rec["kind"], rec["body"]
-    out = {"id": rec["id"], "kind": kind, "body": body, "exc": "none", "out": [], "call": {"exc": "skipped", "rewritten": [], "params": []}}
+    out = {"id": rec["id"], "kind": kind, "body": body, "exc": "none", "out": [], "call": {"exc": "skipped", "rewritten": [], "params": []},
+           "again": {"exc": "skipped", "out": [], "out2": []}}
     src = source(kind, body)
     out["src"] = src
     try:
@@ -117,6 +118,24 @@ def run_body(rec):
     except Exception as e:
         out["exc"] = type(e).__name__
         out["trace"] = traceback.format_exc(limit=5)
+    if kind == "function" and out["exc"] == "none":
+        # Body.tla Rehome ; Convert: the description a class was made from still converts as before
+        try:
+            def fn_tokens(ir_):
+                n_ = emit.function(ir_, function_name="f", function_type="static", emit_default_doc=False)
+                n_ = ast.parse(ast.unparse(ast.fix_missing_locations(n_))).body[0]
+                return classify([s_ for s_ in n_.body if not is_doc(s_)], body)
+
+            ir1 = parse.function(ast.parse(src).body[0])
+            emit.class_(ir1, class_name="ConfigClass", emit_call=True)
+            o1 = fn_tokens(ir1)
+            ir2 = parse.function(ast.parse(src).body[0])
+            emit.class_(ir2, class_name="ConfigClass", emit_call=False)
+            emit.argparse_function(ir2, function_name="set_cli_args", function_type="static")
+            out["again"] = {"exc": "none", "out": o1, "out2": fn_tokens(ir2)}
+        except Exception as e:
+            out["again"] = {"exc": type(e).__name__, "out": [], "out2": []}
+            out["again_trace"] = traceback.format_exc(limit=5)
     if kind == "function" and rec.get("call", True):
         try:
             ir = parse.function(ast.parse(src).body[0])
@@ -185,7 +204,7 @@ def run(prop="C16", propose=False, replay=None):
         recs = [{"id": "b0", "kind": rp["kind"], "body": rp["body"]}]
     with Pool(NCPU) as pool:
         res = pool.map(run_body, recs, chunksize=100)
-    traces = [{k: r[k] for k in ("id", "kind", "body", "exc", "out", "call")} for r in res]
+    traces = [{k: r[k] for k in ("id", "kind", "body", "exc", "out", "call", "again")} for r in res]
     fails, stats = tlc.validate_traces("BodyTrace.tla", "BodyTrace.cfg", traces, shards=8)
     matcher = F.Matcher(prop)
     violations, unmatched = [], []
@@ -225,7 +244,8 @@ def run(prop="C16", propose=False, replay=None):
     cov.update({"traces_validated_against_impl": len(traces), "bodies": len(recs), "failing_traces": len(fails), "known_findings_matched": len(matcher.hits),
                 "stale_findings": matcher.stale(), "exhaustive": thorough,
                 "rule": "every body of Body.tla up to 2 statements and a sample (all in thorough) of the bodies of 3-4 statements over 9 function / 8 argparse "
-                        "statement tokens; parse + emit to the same kind and name; __call__ re-homing with labelled names",
+                        "statement tokens; parse + emit to the same kind and name; __call__ re-homing with labelled names; the same conversion again "
+                        "after a class (with and without __call__) and an argparse function were made from the same description",
                 "samples": [{k: v for k, v in r.items() if k in ("kind", "body", "out", "call")} for r in res[:: max(1, len(res) // 3)][:3]]})
     return R.finish(prop, "model_checking", cov, timer, violations[:200], matcher.report_lines(),
                     ["statements are instances of 10 templates; order among extra statements of an argparse function is judged, their position "
